@@ -12,6 +12,27 @@ open BtcVerif BtcVerif.Crypto
 
 def zero32 : Bytes := List.replicate 32 0
 
+/-- fields in wire range; unlike `Spec.Wire.WFTx` an empty input list is allowed (the checks must
+    reject it) and there may be fewer witness stacks than inputs (the serialiser allows it) -/
+def TxRange (t : Tx) : Prop :=
+  -(2 ^ 31 : Int) ≤ t.nVersion ∧ t.nVersion < 2 ^ 31 ∧
+  t.vin.length < 2 ^ 64 ∧ t.vout.length < 2 ^ 64 ∧
+  (∀ i ∈ t.vin, Spec.Wire.WFTxIn i) ∧ (∀ o ∈ t.vout, Spec.Wire.WFTxOut o) ∧
+  t.wit.length ≤ t.vin.length ∧ (∀ s ∈ t.wit, Spec.Wire.WFWitStack s) ∧
+  t.nLockTime < 2 ^ 32
+
+def BlockRange (b : Block) : Prop :=
+  Spec.Wire.WFHeader b.hdr ∧ b.vtx.length < 2 ^ 64 ∧ ∀ t ∈ b.vtx, TxRange t
+
+instance decTxRange (t : Tx) : Decidable (TxRange t) := by
+  unfold TxRange Spec.Wire.WFTxIn Spec.Wire.WFOutPoint Spec.Wire.WFTxOut Spec.Wire.WFWitStack
+  exact inferInstance
+
+instance decBlockRange (b : Block) : Decidable (BlockRange b) := by
+  unfold BlockRange Spec.Wire.WFHeader
+  exact inferInstance
+
+
 /-- one level up: neighbours are hashed pairwise, a last unpaired node is paired with itself -/
 def pairUp : List Bytes → List Bytes
   | [] => []
